@@ -164,6 +164,24 @@ func And(a, b bool) bool     { return a && b }
 func Or(a, b bool) bool      { return a || b }
 func Implies(a, b bool) bool { return !a || b }
 
+// All / Any: conjunction / disjunction without short-circuit branches (the engine builds one term)
+func All(cs ...bool) bool {
+	for _, c := range cs {
+		if !c {
+			return false
+		}
+	}
+	return true
+}
+func Any(cs ...bool) bool {
+	for _, c := range cs {
+		if c {
+			return true
+		}
+	}
+	return false
+}
+
 func Assume(c bool) {
 	nAssume++
 	if !c {
